@@ -8,9 +8,9 @@ use crate::pipe::{self, Deploy, Mode, Outcome, Pipe};
 use crate::rng::Rng;
 use crate::Opts;
 
-fn outcome_coq(o: &Outcome) -> String {
+fn outcome_coq(o: &Outcome, remote: bool) -> String {
     match o {
-        Outcome::Done(v) => format!("(ODone [{}])", v.iter().map(|(k, x)| format!("({}, {})", if *k < 0 { format!("({k})") } else { k.to_string() }, if *x < 0 { format!("({x})") } else { x.to_string() })).collect::<Vec<_>>().join("; ")),
+        Outcome::Done(v) => format!("({} [{}])", if remote { "ODoneR" } else { "ODone" }, v.iter().map(|(k, x)| format!("({}, {})", if *k < 0 { format!("({k})") } else { k.to_string() }, if *x < 0 { format!("({x})") } else { x.to_string() })).collect::<Vec<_>>().join("; ")),
         Outcome::Hang => "OHang".into(),
         _ => "OPanic".into(),
     }
@@ -30,7 +30,7 @@ pub fn emit(sink: &mut CaseSink, p: &Pipe, configs: &[(Deploy, Mode)], watchdog:
         sink.count(&format!("mode_{}", match m { Mode::Single => "single", Mode::Fixed(_) => "fixed", Mode::Adaptive(_, _) => "adaptive" }));
         descr.push(json!({"deployment": d.describe(), "batch_mode": format!("{:?}", m), "outcome": match &o { Outcome::Done(v) => format!("{} elements: {:?}", v.len(), &v[..v.len().min(12)]), x => format!("{:?}", x) }}));
         if let Outcome::Panicked(m) = &o { eprintln!("C01 run panicked: {m}"); }
-        runs.push(outcome_coq(&o));
+        runs.push(outcome_coq(&o, matches!(d, Deploy::Remote(_))));
     }
     sink.count(if p.has_loop() { "with_loop" } else { "acyclic" });
     let term = format!("(Build_case {} [{}])", p.coq(), runs.join("; "));
